@@ -1,11 +1,9 @@
 /* C17: common environment of the two call sites that start a file in the
  * block processor: pack_file (gensquashfs) and write_file (tar2sqfs).
  * Contracts: the stream constructors/operations may fail; splice returns any
- * count (> 0: continue, 0: end of input, < 0: error). The copy loop is meant
- * to be closed by a loop contract (contracts/loops/C17.tbl, any number of
- * iterations); tools/annotate.py currently places the clauses of a `do` loop
- * where goto-cc 6.11 rejects them, so the registered cases bound the number of
- * transfers with SPLICE_MAX instead (the flags do not depend on the loop).
+ * count (> 0: continue, 0: end of input, < 0: error) - the copy loop is closed
+ * by a loop contract (contracts/loops/C17.tbl), any number of iterations.
+ * (-DSPLICE_MAX=n gives a bounded variant without loop contract.)
  */
 #ifndef C17_PACK_ENV_H
 #define C17_PACK_ENV_H
@@ -19,7 +17,7 @@ unsigned g_create_calls, g_splice_calls, g_flush_calls;
 static sqfs_u32 g_create_flags;
 static sqfs_block_processor_t *g_create_proc;
 static sqfs_inode_generic_t **g_create_inode;
-static sqfs_u32 g_splice_size;
+unsigned g_splice_size;
 unsigned g_faults;
 
 void stub_destroy(sqfs_object_t *obj) { (void)obj; }
@@ -71,7 +69,8 @@ sqfs_s32 sqfs_istream_splice(sqfs_istream_t *in, sqfs_ostream_t *out,
 
 	VERIF_ASSERT(in == &g_in && out == &g_out && g_create_calls == 1,
 		     "C17.pack.env_pre");
-	g_splice_calls += 1;
+	if (g_splice_calls < 0xFFFFFFFFu)	/* saturating: "at least once" */
+		g_splice_calls += 1;
 #ifdef SPLICE_MAX
 	/* bounded variant (no loop contract): the input ends or fails after
 	 * at most SPLICE_MAX transfers */
